@@ -34,6 +34,7 @@ def tasks(tier, seed):
     for t in explore.std_tasks(plan(tier), parts=4):
         t['kind'] = 'pad'
         out.append(t)
+    out.append({'kind': 'pad', 'extra': True})
     for i in range(len(spec_values(seed))):
         for part in range(4):
             out.append({'kind': 'spec', 'value': i, 'part': part})
@@ -295,10 +296,31 @@ def all_specs(L):
                 yield s
 
 
+def extra_pad_values(seed):
+    """Values whose end was produced by a slice / concatenation (the place where a style can be left open)."""
+    R = explore.roles(seed)
+    hs = []
+    for k in (1, 2):
+        hs.append([['plain', 'abc'], ['apply', R['W'], 0, k, True], ['apply', R['W'], 0, 3, True], ['slice', 0, k]])
+        hs.append([['plain', 'abc'], ['apply', R['W'], k, 3, True], ['apply', R['W'], 0, 3, True], ['slice', k, None]])
+        hs.append([['rainbow', 'abc'], ['apply', R['R'], 0, 3, True], ['slice', 0, k], ['cat', ['ctor', 'z', R['R']]]])
+        hs.append([['plain', 'abc'], ['apply', R['R'], 0, 3, True], ['apply', R['B'], k, 3, False], ['slice', 0, k + 1]])
+    hs.append([['plain', 'ab'], ['apply', R['R'], 0, 2, True], ['center', 4, '*', True, True], ['slice', 1, 3]])
+    return [(h, build(h)) for h in hs]
+
+
+class _P:
+    pass
+
+
 def run_task(task, acc):
     quick = env.tier() == 'quick'
     if task['kind'] == 'pad':
-        pool = explore.std_pool(task, acc.seed, acc)
+        if task.get('extra'):
+            pool = _P()
+            pool.items = extra_pad_values(acc.seed)
+        else:
+            pool = explore.std_pool(task, acc.seed, acc)
         for h, v in pool.items:
             text, cells = model.alpha_codes(v)
             L = len(text)
